@@ -277,9 +277,14 @@ def run(ctx):
     victim = [f for f in P.functions if any((LS.lock_event(f, c) or ("", ()))[0] == "lock" for c in f.calls()) and
               any(n["k"] == "un" and n["op"] in ("++", "post++") and f.sn(n["sub"]).get("dk") == "global" for n in f.nodes.values())]
     if not victim:
-        raise Broken("C15.R1 self-check: no function that increments a global under a lock (the socket id allocator) found")
-    LS2 = L.LockSets(P, exported=P.api_symbols(), ignore_in={victim[0].name})
-    LS2.entry()
+        # any function that takes a lock and touches a shared object will do
+        victim = [f for f in P.functions if any((LS.lock_event(f, c) or ("", ()))[0] == "lock" for c in f.calls()) and
+                  any(n["k"] == "ref" and n["dk"] in ("global", "static_local") and LS.gobj(f, n) in objs and "pthread_mutex_t" not in (n.get("t") or "")
+                      for n in f.nodes.values())]
+    if not victim:
+        ctx.broken.append("C15.R1 self-check: no function that accesses a shared object under a lock found")
+        victim = None
+    LS2 = L.LockSets(P, exported=P.api_symbols(), ignore_in={victim[0].name}) if victim else None
 
     class Probe:
         def __init__(self):
@@ -298,10 +303,12 @@ def run(ctx):
         def violation(self, key, msg, loc=None, **kw):
             self.v.append(key)
     pr = Probe()
-    classify(P, LS2, pr, objs, {})
-    if not pr.v:
-        raise Broken("C15.R1 self-check: removing the lock in %s is not reported" % victim[0].name)
-    r1.ok("self-check: with the lock calls of %s hidden the rule reports %s" % (victim[0].name, pr.v[0]), "positive control")
+    if victim:
+        LS2.entry()
+        classify(P, LS2, pr, objs, {})
+        if not pr.v:
+            raise Broken("C15.R1 self-check: removing the lock in %s is not reported" % victim[0].name)
+        r1.ok("self-check: with the lock calls of %s hidden the rule reports %s" % (victim[0].name, pr.v[0]), "positive control")
 
     # ------------------------------------------------------------------ R2
     r2 = ctx.rule("C15.R2", "every lock is released on every non-aborting exit; no blocking call inside a critical section")
@@ -436,3 +443,61 @@ def run(ctx):
             r3.ok("%s: no unprotected dereference of locked storage" % f.qname, "lockset at dereference")
     if n3 < 1:
         raise Broken("C15.R3: no function holding pointers into locked storage found")
+
+
+    # ------------------------------------------------------------------ R4
+    r4 = ctx.rule("C15.R4", "atomic objects are updated by single atomic operations; thread-local objects are scratch buffers only")
+    n4 = 0
+    for f in P.functions:
+        loads = {}      # object -> set of local names holding a loaded value
+        stores_ = []
+        for nid, n in f.nodes.items():
+            if n["k"] != "atomic" and not (n["k"] == "call" and (n.get("callee") or "").startswith("__atomic")):
+                continue
+            args = n["args"]
+            if not args:
+                continue
+            tgt = LS.opath(f, args[0])
+            if not tgt or tgt[0] not in objs:
+                continue
+            n4 += 1
+            par = f.parents().get(nid)
+            while par is not None and f.nodes[par]["k"] in ("cast", "paren"):
+                par = f.parents().get(par)
+            pn = f.nodes.get(par, {})
+            nm = (n.get("name") or n.get("callee") or n.get("op") or "")
+            holder = None
+            if pn.get("k") == "decl":
+                holder = [v["name"] for v in pn["vars"] if v.get("init") is not None and nid in set(f.walk(v["init"]))]
+                holder = holder[0] if holder else None
+            elif pn.get("k") == "bin" and pn["op"] == "=" and f.sn(pn["l"])["k"] == "ref":
+                holder = f.sn(pn["l"])["name"]
+            if holder and len(args) <= 2:
+                loads.setdefault(tgt[0], set()).add(holder)
+            elif len(args) >= 3 or "store" in nm:
+                stores_.append((tgt[0], nid, args))
+        for obj, nid, args in stores_:
+            r4.instance("%s: atomic store to %s" % (f.qname, obj[1]))
+            dep = False
+            for a in args[2:]:      # clang orders AtomicExpr operands (ptr, order, value...)
+                for x in f.walk(a):
+                    m = f.nodes[x]
+                    if m["k"] == "ref" and m["name"] in loads.get(obj, ()):
+                        dep = True
+            if dep:
+                r4.violation("%s:%s:split-rmw" % (f.name, obj[1]), "%s loads %s atomically and stores a value computed from it with a separate atomic store: "
+                             "two threads can read the same value (lost update / duplicate value)" % (f.name, obj[1]), loc=f.loc(nid))
+            else:
+                r4.ok("%s: the value stored to %s does not depend on a separately loaded one" % (f.qname, obj[1]), "data dependence")
+    for g in P.globals:
+        if not g.get("tls") or g.get("sysspelled") or g.get("const"):
+            continue
+        t = g.get("t") or ""
+        r4.instance("thread-local %s (%s)" % (g["name"], g["file"]))
+        if t.startswith("char[") or t.startswith("char ["):
+            r4.ok("thread-local %s is a character scratch buffer" % g["name"], "type")
+        else:
+            r4.violation("tls:%s" % g["name"], "thread-local object %s of type %s holds state per thread: a socket created in one thread and used or closed in "
+                         "another (a documented use) would not find it" % (g["name"], t), loc="%s:%s" % (g["file"], g.get("line")))
+    if n4 < 2:
+        raise Broken("C15.R4: only %d atomic accesses to shared objects found" % n4)
